@@ -1,9 +1,9 @@
 package props
 
 import (
+	"fmt"
 	"go/token"
 	"go/types"
-	"fmt"
 	"strings"
 
 	"golang.org/x/tools/go/ssa"
@@ -13,14 +13,18 @@ import (
 
 func init() {
 	register(&Prop{
-		ID:    "C06",
-		Title: "Reads return exactly the read-mask projection and never mutate",
+		ID:          "C06",
+		Title:       "Reads return exactly the read-mask projection and never mutate",
 		Explanation: "R06.1 ResponseFilter.FilterClone's decision table: nil mask returns the message itself, nil message returns nil, an empty mask returns a reset clone, otherwise a clone filtered with the mask's paths; in every row the argument is never written (parameter-mutation analysis) and every mutator receives the clone. R06.2 every read goes through the filter built from the request's mask: Value.get, Collection.Get, every element of List, and the Value / OldValue / NewValue of events forwarded by Pull derive from FilterClone / change.filter with ReadRequest.ResponseFilter = NewResponseFilter(WithFieldMask(rr.ReadMask)); the filter helpers of change events project both values and keep the other fields. R06.3 no caller of the in-place ResponseFilter.Filter passes a published message or a container of published messages (E2). R06.4 ResponseFilter.Validate returns InvalidArgument exactly when a mask is set and invalid for the message. Does NOT decide equality with an independent projection nor panic-freedom of fmutils for corrupted masks (third-party code).",
 		Assumptions: []string{"fmutils.Filter(msg, paths) keeps exactly the listed paths of msg; proto.Clone is a deep copy"},
 		Run:         runC06,
 		Controls: []Control{
-			{Name: "filterclone-filters-original", File: "pkg/masks/get.go", Old: "\tclone := proto.Clone(msg)\n\tfmutils.Filter(clone, r.fields.GetPaths())\n\treturn clone", New: "\tfmutils.Filter(msg, r.fields.GetPaths())\n\treturn msg", Expect: "R06.1"},
-			{Name: "empty-mask-returns-everything", File: "pkg/masks/get.go", Old: "\tif len(r.fields.GetPaths()) == 0 {\n\t\tclone := proto.Clone(msg)\n\t\tproto.Reset(clone)\n\t\treturn clone\n\t}\n\tclone := proto.Clone(msg)", New: "\tif len(r.fields.GetPaths()) == 0 {\n\t\treturn msg\n\t}\n\tclone := proto.Clone(msg)", Expect: "R06.1"},
+			{Name: "filterclone-filters-original", File: "pkg/masks/get.go", Old: "\tfmutils.Filter(clone, paths)\n\treturn clone", New: "\tfmutils.Filter(msg, paths)\n\treturn msg", Expect: "R06.1"},
+			{Name: "empty-mask-returns-everything", File: "pkg/masks/get.go", Old: "\tif len(paths) == 0 {\n\t\tproto.Reset(clone)\n\t\treturn clone\n\t}\n\tfmutils.Filter(clone, paths)", New: "\tif len(paths) == 0 {\n\t\treturn msg\n\t}\n\tfmutils.Filter(clone, paths)", Expect: "R06.1"},
+			{Name: "revert-F52-raw-paths", File: "pkg/masks/get.go", Old: "\tfmutils.Filter(clone, paths)\n\treturn clone", New: "\tfmutils.Filter(clone, r.fields.GetPaths())\n\treturn clone", Expect: "R06.6"},
+			{Name: "walker-ignores-maps", File: "pkg/masks/get.go", Old: "\t\tif fd.IsMap() || fd.Message() == nil {", New: "\t\tif fd.Message() == nil {", Expect: "R06.6"},
+			{Name: "revert-F53-no-normalize", File: "pkg/masks/get.go", Old: "\tmask.Normalize()\n", New: "", Expect: "R06.7"},
+			{Name: "normalise-through-union", Silent: true, File: "pkg/masks/get.go", Old: "\tmask.Normalize()\n\treturn mask.Paths\n", New: "\treturn fieldmaskpb.Union(mask, mask).Paths\n"},
 			{Name: "get-unfiltered", File: "pkg/resource/value.go", Old: "\treturn req.FilterClone(r.value)", New: "\t_ = req\n\treturn r.value", Expect: "R06.2"},
 			{Name: "list-unfiltered", File: "pkg/resource/collection.go", Old: "\t\tresult = append(result, filter.FilterClone(e.body))", New: "\t\t_ = filter\n\t\tresult = append(result, e.body)", Expect: "R06.2"},
 			{Name: "filter-ignores-mask", File: "pkg/resource/opt.go", Old: "return masks.NewResponseFilter(masks.WithFieldMask(rr.ReadMask))", New: "return masks.NewResponseFilter()", Expect: "R06.2"},
@@ -44,6 +48,9 @@ func runC06(c *an.Ctx) {
 	c.Min("R06.2", 9)
 	c.Min("R06.3", 1)
 	c.Min("R06.4", 2)
+	r066(c)
+	c.Min("R06.6", 2)
+	c.Min("R06.7", 2)
 }
 
 func r061(c *an.Ctx) { r061as(c, "R06.1") }
@@ -410,6 +417,13 @@ func r064(c *an.Ctx) {
 					methods[call.Call.Method.Name()] = true
 				}
 			})
+			// a segment is resolved by its proto name only: the filter (fmutils) matches on FieldDescriptor.Name, so a path the
+			// walker accepts under another spelling (JSON / text name) selects nothing and the read silently drops the field
+			for _, alt := range []string{"ByJSONName", "ByTextName"} {
+				if methods[alt] {
+					c.Bad(rule, name+"|a path walker resolves segments by proto name only", f.Pos(), an.FuncName(f)+" looks fields up with "+alt+": a read mask spelled that way is reported valid, but the filter only knows proto field names and drops the field from the response instead of the request being answered with InvalidArgument")
+				}
+			}
 			if !methods["Message"] {
 				continue
 			}
@@ -635,4 +649,250 @@ func readRequestFilterClone(c *an.Ctx, rule string) *ssa.Function {
 	c.SawFunc(an.FuncName(fn))
 	c.Check(ok, rule, "(*pkg/resource.ReadRequest).FilterClone|delegates to the request's filter", fn.Pos(), "", "ReadRequest.FilterClone does not return ResponseFilter().FilterClone(m) on every path (e.g. a shortcut returns the message untouched when the mask has no paths): Get with a present but empty read mask returns the whole value while Pull, which builds its filter itself, sends the empty projection")
 	return fn
+}
+
+// r066: what fmutils is handed. fmutils.Filter/Prune assume valid, normalised paths: a path that continues below a map
+// or a repeated scalar field makes them panic (they convert the map / the string to a message), and a path next to one
+// that covers it ("a" and "a.b") narrows the selection to the child although a mask selects the union of its paths.
+// Reads are not preceded by validation (Get/List/Pull never call Validate), so in the response filter the paths given
+// to fmutils never are the mask's own list: they come out of a function of the module that (R06.6) looks the segments
+// up in the message descriptor and tells maps and fields without a message type apart, and (R06.7) drops covered paths
+// (FieldMask.Normalize / fieldmaskpb.Union) - or the call is only reached when FieldMask.IsValid said yes (R06.6).
+func r066(c *an.Ctx) {
+	n := 0
+	for _, fn := range c.Prog.FuncsIn("pkg/masks") {
+		if c.Prog.IsGenerated(fn.Pos()) || fn.Signature.Recv() == nil || !strings.HasSuffix(an.NamedTypeName(fn.Signature.Recv().Type()), "/pkg/masks.ResponseFilter") {
+			continue
+		}
+		an.Instrs(fn, func(in ssa.Instruction) {
+			call, ok := in.(*ssa.Call)
+			if !ok {
+				return
+			}
+			var paths ssa.Value
+			switch an.CalleeName(call) {
+			case "github.com/mennanov/fmutils.Filter", "github.com/mennanov/fmutils.Prune":
+				paths = call.Call.Args[1]
+			case "github.com/mennanov/fmutils.NestedMaskFromPaths":
+				paths = call.Call.Args[0]
+			default:
+				return
+			}
+			n++
+			name := an.FuncName(fn)
+			c.SawFunc(name)
+			// where the paths come from
+			var makers []*ssa.Function
+			raw := false
+			for _, s0 := range localValues(paths, 0) {
+				cl, isCall := s0.(*ssa.Call)
+				if !isCall {
+					raw = true
+					continue
+				}
+				if h := cl.Call.StaticCallee(); h != nil && an.InModule(h) && len(h.Blocks) > 0 {
+					makers = append(makers, h)
+					continue
+				}
+				raw = true // the mask's own GetPaths() / Paths
+			}
+			consults := !raw && len(makers) > 0
+			normalises := pathsNormalised(paths, call)
+			for _, h := range makers {
+				methods := map[string]bool{}
+				seen := map[*ssa.Function]bool{}
+				var visit func(f *ssa.Function, depth int)
+				visit = func(f *ssa.Function, depth int) {
+					if seen[f] || depth > 3 {
+						return
+					}
+					seen[f] = true
+					for _, g := range an.WithClosures(f) {
+						an.Instrs(g, func(in ssa.Instruction) {
+							cl, ok := in.(ssa.CallInstruction)
+							if !ok {
+								return
+							}
+							if cl.Common().IsInvoke() {
+								methods[cl.Common().Method.Name()] = true
+								return
+							}
+							if cal := cl.Common().StaticCallee(); cal != nil && an.InModule(cal) && len(cal.Blocks) > 0 {
+								visit(cal, depth+1)
+							}
+						})
+					}
+				}
+				visit(h, 0)
+				if !(methods["ByName"] && methods["IsMap"] && (methods["Message"] || methods["Kind"])) {
+					consults = false
+				}
+			}
+			// validated first?
+			validated := false
+			for _, e := range an.GuardingEdges(call) {
+				if cl, isCall := e.If.Cond.(*ssa.Call); isCall && strings.HasSuffix(an.CalleeName(cl), "fieldmaskpb.FieldMask).IsValid") && e.Branch {
+					validated = true
+				}
+			}
+			c.Check(consults || validated, "R06.6", fmt.Sprintf("%s|paths given to fmutils are checked against the descriptor", name), call.Pos(), "the paths come out of a descriptor-aware function of the module",
+				"the read mask's own paths are handed to fmutils, which assumes they are valid: a path that continues below a map field (\"map_string_string.k\") or a repeated scalar (\"repeated_string.x\") makes the read panic (cannot convert map/string to message); Get, List and Pull never validate the mask first")
+			c.Check(normalises, "R06.7", fmt.Sprintf("%s|paths given to fmutils are normalised", name), call.Pos(), "covered paths are dropped (Normalize)",
+				"the read mask's paths reach fmutils without being normalised: with a path and one it covers (\"a\" and \"a.b\") fmutils keeps only a.b, although the mask selects the union of its paths, i.e. all of a")
+		})
+	}
+	c.Count("fmutils_calls_in_response_filter", n)
+}
+
+// localValues resolves v through phis and local variables of its own function only (calls are not looked into).
+func localValues(v ssa.Value, depth int) []ssa.Value {
+	if depth > 6 {
+		return []ssa.Value{v}
+	}
+	switch x := v.(type) {
+	case *ssa.Phi:
+		var out []ssa.Value
+		for _, e := range x.Edges {
+			out = append(out, localValues(e, depth+1)...)
+		}
+		return out
+	case *ssa.UnOp:
+		if x.Op == token.MUL {
+			if _, isAlloc := x.X.(*ssa.Alloc); isAlloc {
+				if rs, _ := an.ReachingStores(x); len(rs) > 0 {
+					var out []ssa.Value
+					for _, st := range rs {
+						out = append(out, localValues(st.Val, depth+1)...)
+					}
+					return out
+				}
+			}
+		}
+	case *ssa.ChangeType:
+		return localValues(x.X, depth+1)
+	}
+	return []ssa.Value{v}
+}
+
+// pathsNormalised reports whether the paths value handed to fmutils at call has had covered and duplicate paths removed:
+// it is the result of a module function that (deep) calls FieldMask.Normalize / fieldmaskpb.Union, or the Paths of a
+// FieldMask on which Normalize was called on every way to this point.
+func pathsNormalised(paths ssa.Value, call ssa.Instruction) bool {
+	vals := localValues(paths, 0)
+	if len(vals) == 0 {
+		return false
+	}
+	isNormalize := func(n string) bool {
+		return n == "(*google.golang.org/protobuf/types/known/fieldmaskpb.FieldMask).Normalize" || n == "google.golang.org/protobuf/types/known/fieldmaskpb.Union"
+	}
+	for _, v := range vals {
+		ok := false
+		switch x := v.(type) {
+		case *ssa.Call:
+			if h := x.Call.StaticCallee(); h != nil && an.InModule(h) && len(h.Blocks) > 0 {
+				seen := map[*ssa.Function]bool{}
+				var visit func(f *ssa.Function, depth int)
+				visit = func(f *ssa.Function, depth int) {
+					if seen[f] || depth > 3 {
+						return
+					}
+					seen[f] = true
+					for _, g := range an.WithClosures(f) {
+						an.Instrs(g, func(in ssa.Instruction) {
+							cl, isCall := in.(ssa.CallInstruction)
+							if !isCall {
+								return
+							}
+							if isNormalize(an.CalleeName(cl)) {
+								ok = true
+							}
+							if cal := cl.Common().StaticCallee(); cal != nil && an.InModule(cal) && len(cal.Blocks) > 0 {
+								visit(cal, depth+1)
+							}
+						})
+					}
+				}
+				visit(h, 0)
+			}
+			// Union(...).GetPaths()
+			if strings.HasSuffix(an.CalleeName(x), "fieldmaskpb.FieldMask).GetPaths") && len(x.Call.Args) == 1 {
+				for _, r := range localValues(x.Call.Args[0], 0) {
+					if rc, isCall := r.(*ssa.Call); isCall && isNormalize(an.CalleeName(rc)) {
+						ok = true
+					}
+				}
+			}
+		case *ssa.UnOp:
+			// m.Paths with m.Normalize() before
+			if fa, isFA := x.X.(*ssa.FieldAddr); isFA {
+				if _, _, f, isF := an.FieldOf(fa); isF && f == "Paths" {
+					for _, cl := range an.CallsTo(x.Parent(), "(*google.golang.org/protobuf/types/known/fieldmaskpb.FieldMask).Normalize") {
+						if an.SameValues(cl.Common().Args[0], fa.X) && an.Dominates(cl.(ssa.Instruction), call) {
+							ok = true
+						}
+					}
+					for _, r := range localValues(fa.X, 0) {
+						if rc, isCall := r.(*ssa.Call); isCall && isNormalize(an.CalleeName(rc)) {
+							ok = true
+						}
+					}
+				}
+			}
+		}
+		if !ok {
+			return false
+		}
+	}
+	return true
+}
+
+// r058: the same on the write side. FieldUpdater hands update, writable and reset masks to fmutils: every list of paths
+// fmutils receives outside the response filter has been normalised (see pathsNormalised), so that an update mask
+// naming "a" and "a.b" writes all of a, a writable mask naming both lets all of a be written and a reset mask naming
+// both clears all of a.
+func r058(c *an.Ctx, rule string) {
+	n := 0
+	ord := map[*ssa.Function]int{}
+	for _, fn := range c.Prog.FuncsIn("pkg/masks") {
+		if c.Prog.IsGenerated(fn.Pos()) {
+			continue
+		}
+		if fn.Signature.Recv() != nil && strings.HasSuffix(an.NamedTypeName(fn.Signature.Recv().Type()), "/pkg/masks.ResponseFilter") {
+			continue
+		}
+		an.Instrs(fn, func(in ssa.Instruction) {
+			call, ok := in.(*ssa.Call)
+			if !ok {
+				return
+			}
+			var paths ssa.Value
+			switch an.CalleeName(call) {
+			case "github.com/mennanov/fmutils.Filter", "github.com/mennanov/fmutils.Prune":
+				paths = call.Call.Args[1]
+			case "github.com/mennanov/fmutils.NestedMaskFromPaths":
+				paths = call.Call.Args[0]
+			default:
+				return
+			}
+			n++
+			c.SawFunc(an.FuncName(fn))
+			what := "paths"
+			for _, s0 := range an.Sources(paths) {
+				if _, _, f, isF := an.FieldOf(s0); isF && f != "Paths" {
+					what = f
+				}
+				if cl, isCall := s0.(*ssa.Call); isCall && len(cl.Call.Args) > 0 {
+					for _, s1 := range an.Sources(cl.Call.Args[0]) {
+						if _, _, f, isF := an.FieldOf(s1); isF && f != "Paths" {
+							what = f
+						}
+					}
+				}
+			}
+			ord[fn]++
+			c.Check(pathsNormalised(paths, call), rule, fmt.Sprintf("%s|fmutils call #%d gets normalised paths", an.FuncName(fn), ord[fn]), call.Pos(), "covered and duplicate paths are dropped first ("+what+")",
+				"a mask's own paths reach fmutils without being normalised: with a path and one it covers (\"a\" and \"a.b\") fmutils narrows the mask to a.b, so an update naming both writes only a.b (the rest of a keeps its old value although the mask names it), a writable mask naming both makes the rest of a read-only and a reset mask naming both leaves the rest of a in place")
+		})
+	}
+	c.Count("fmutils_calls_on_the_write_side", n)
 }
